@@ -144,7 +144,8 @@ PROPS["C08"] = dict(
     explanation="",
 )
 
-verus_unit("polyv", "poly", ["C20"], ["polynom::add", "polynom::sub", "polynom::mul", "polynom::mul_by_scalar", "polynom::degree_of", "utils::fill_power_series"])
+verus_unit("polyv", "poly", ["C20"], ["polynom::add", "polynom::sub", "polynom::mul", "polynom::mul_by_scalar", "polynom::degree_of", "utils::fill_power_series",
+           "polynom::div (quotient * divisor + remainder == dividend coefficient by coefficient, remainder below the divisor degree; assumes five field laws)"])
 
 native_unit("poly_native", "winter-math", "math", "native/poly_bounded.rs", ["C20"],
             ["polynom::{eval, eval_many, add, sub, mul, mul_by_scalar, div, syn_div, syn_div_in_place, syn_div_roots_in_place, interpolate, interpolate_batch, poly_from_roots, degree_of, remove_leading_zeros}", "utils::{get_power_series, get_power_series_with_offset, add_in_place, mul_acc, batch_inversion}"],
